@@ -922,6 +922,17 @@ fn prepare_auth_with_history(
 
 fn prepare_new_auth(room: &Room, new_auth: &AuthorisationNode) -> Result<()> {
     let authorisation = new_auth.parse()?;
+    //only an administrator names the user administrators, as for a room that is entirely new
+    for new_user_admin in &new_auth.user_admin_nodes {
+        if !room.is_admin(
+            &new_user_admin.node.verifying_key,
+            new_user_admin.node.mdate,
+        ) {
+            return Err(Error::InvalidNode(
+                "RoomNode Authorisation new user admin is not authorised".to_string(),
+            ));
+        }
+    }
     for new_user in &new_auth.user_nodes {
         if !authorisation.can_admin_users(&new_user.node.verifying_key, new_user.node.mdate)
             && !room.is_admin(&new_user.node.verifying_key, new_user.node.mdate)
